@@ -21,6 +21,31 @@ WIDE_PATHS = ["//static/app/index.html?v=1&lang=en", "//a/b?v=1", "///a/b?x=1", 
 SEGS = ["a", "static", "http:", "x;p", "%2F", "a%2Fb", "é", "\udcff", ":80", "host:99", "..", ".", "", "a b", "~", "%41", "u@h", "b"]
 
 
+FORM_CS = ["utf-8", "latin-1", "utf-16le", "utf-16be", "utf-32le", "cp037", "cp500", "x-unknown"]
+FORM_CTS = [None, "text/plain", "application/x-www-form-urlencoded", "Application/X-WWW-Form-Urlencoded"] + \
+           ["application/x-www-form-urlencoded; charset=" + c for c in FORM_CS] + \
+           ["application/x-www-form-urlencoded;charset=cp037", "application/x-www-form-urlencoded; Charset=utf-16le",
+            "application/x-www-form-urlencoded; a=b; charset=utf-16be", "application/x-www-form-urlencoded; charset=cp500; boundary=x",
+            "Application/X-WWW-Form-Urlencoded; charset=utf-32le", 'application/x-www-form-urlencoded; charset="utf-8"',
+            "application/x-www-form-urlencoded; charset=utf-16", "text/plain; charset=utf-16le",
+            "application/x-www-form-urlencoded; CHARSET=cp037; charset=utf-16le"]
+FORM_BODIES = [None, "", "a=1", "a&b=2", "old=body", "user=bob&role=admin", "x=%C3%A9&y=+"]
+MP_CT_PARAMS = ["multipart/form-data; boundary=XX", "multipart/form-data; charset=utf-16le; boundary=XX", "multipart/form-data; boundary=XX; charset=cp037",
+                "Multipart/Form-Data; boundary=XX", "multipart/form-data; Boundary=XX", "multipart/form-data;boundary=XX;a=b",
+                "multipart/form-data; boundary=XX; boundary=YY", "multipart/form-data", "multipart/form-data; charset=utf-8"]
+
+
+def form_charset(ct):
+    """the codec the starting body is written in when it is consistent with the header"""
+    import codecs
+    p = nh.parse_content_type(ct or "")
+    cs = (p[2].get("charset") if p else None) or "latin-1"
+    try:
+        codecs.lookup(cs); return cs
+    except LookupError:
+        return "utf-8"
+
+
 def _unq(s):
     import urllib.parse
     return urllib.parse.unquote(s, errors="surrogateescape")
@@ -226,6 +251,13 @@ class Check(PropertyCheck):
         for v in [b"", b"v", b"l1\r\nl2", b"l1\nl2", b"l1\rl2", b"v\r\n", b"\r\nv", b"--XX", b"a--XXb", b"\x0b\x0c\x85"]:
             for k in [b"k", b"", b'k"q', b"a\r\nb", b"a.png"]:
                 yield {"k": "multipart", "ct": "multipart/form-data; boundary=XX", "parts": [[hx(k), hx(v)]], "body0": None}
+        for ct in FORM_CTS:
+            for body0 in ("old=body", "a&b=2"):
+                for benc in (form_charset(ct), "ascii"):
+                    yield {"k": "form", "pairs": [["a", "1"], ["b", "2"]], "body0": body0, "ct": ct, "benc": benc}
+                    yield {"k": "formwb", "body0": body0, "ct": ct, "benc": benc}
+        for ct in MP_CT_PARAMS:
+            yield {"k": "multipart", "ct": ct, "parts": [[hx(b"k"), hx(b"v")], [hx(b"k2"), hx(b"")]], "body0": None}
         for p0 in WIDE_PATHS:
             yield {"k": "wb", "path0": p0}
             if p0 != "*":
@@ -239,14 +271,18 @@ class Check(PropertyCheck):
             elif r < 0.47: yield {"k": "setcookie", "cookies": [self._sc(rng) for _ in range(rng.randint(0, 2))]}
             elif r < 0.55: yield {"k": "setcookiehdr", "hdrs": [self._sane(self._s(rng, CK_ALPHA + ["=", ";", ",", "expires=", "; "], 0, 9)) for _ in range(rng.randint(1, 2))]}
             elif r < 0.72:
-                ct = rng.pick([None, None, "text/plain"] + ["multipart/form-data; boundary=" + b for b in BOUNDARIES])
+                ct = rng.pick([None, None, "text/plain"] + ["multipart/form-data; boundary=" + b for b in BOUNDARIES] + MP_CT_PARAMS)
                 yield {"k": "multipart", "ct": ct, "parts": self._mp_parts(rng), "body0": None}
             elif r < 0.78:
                 b = rng.pick(["XX", "a", "----B1"])
                 body = b"".join(rng.pick(MP_ALPHA + [b"--" + b.encode(), b"\r\n", b'Content-Disposition: form-data; name="k"', b"\r\n\r\n", b"--\r\n"]) for _ in range(rng.randint(0, 9)))
                 yield {"k": "mpbody", "ct": "multipart/form-data; boundary=" + b, "body_hex": hx(body)}
             elif r < 0.86: yield {"k": "query", "pairs": self._pairs(rng), "path0": self._wide_path(rng, star=False) if rng.chance(0.6) else rng.pick(["/p", "/p?x=1", "/p;k?x=1&y#f", "/", "/a%20b?%zz"])}
-            elif r < 0.94: yield {"k": "form", "pairs": self._pairs(rng), "body0": rng.pick([None, "a=1", "a&b=2", ""]), "ct": rng.pick([None, "application/x-www-form-urlencoded", "text/plain"])}
+            elif r < 0.94:
+                ct = rng.pick(FORM_CTS)
+                benc = form_charset(ct) if rng.chance(0.7) else rng.pick(["ascii", "utf-16le", "cp037", "utf-8"])
+                if rng.chance(0.65): yield {"k": "form", "pairs": self._pairs(rng), "body0": rng.pick(FORM_BODIES), "ct": ct, "benc": benc}
+                else: yield {"k": "formwb", "body0": rng.pick(FORM_BODIES[1:]), "ct": ct, "benc": benc}
             else: yield {"k": "path", "comps": [self._sane(self._s(rng, STR_ALPHA, 0, 3)) for _ in range(rng.randint(0, 4))],
                          "path0": self._wide_path(rng, star=False) if rng.chance(0.6) else rng.pick(["/p", "/p?x=1", "/p;k?x=1#f"])}
 
@@ -343,14 +379,24 @@ class Check(PropertyCheck):
             p1 = r.path
             r.query = r.query.fields
             return {"back": back, "path": p1, "path2": r.path, "back2": [list(p) for p in r.query.fields]}
+        if k == "formwb":
+            hd = [] if case["ct"] is None else [(b"content-type", case["ct"].encode())]
+            r = self._req(headers=hd, content=case["body0"].encode(case.get("benc") or "utf-8"))
+            v0 = [list(p) for p in r.urlencoded_form.fields]
+            text0 = r.get_text(strict=False)
+            r.urlencoded_form = r.urlencoded_form.fields
+            return {"v0": v0, "text0": text0, "v1": [list(p) for p in r.urlencoded_form.fields], "ct2": r.headers.get("content-type"),
+                    "body_hex": hx(r.raw_content)}
         if k == "form":
             hd = [] if case["ct"] is None else [(b"content-type", case["ct"].encode())]
-            r = self._req(headers=hd, content=b"" if case["body0"] is None else case["body0"].encode())
+            r = self._req(headers=hd, content=b"" if case["body0"] is None else case["body0"].encode(case.get("benc") or "utf-8"))
+            text0 = r.get_text(strict=False)
             r.urlencoded_form = [tuple(p) for p in case["pairs"]]
             back = [list(p) for p in r.urlencoded_form.fields]
             b1 = r.raw_content
             r.urlencoded_form = r.urlencoded_form.fields
-            return {"back": back, "body_hex": hx(b1), "back2": [list(p) for p in r.urlencoded_form.fields], "ct2": r.headers.get("content-type")}
+            return {"back": back, "body_hex": hx(b1), "back2": [list(p) for p in r.urlencoded_form.fields], "ct2": r.headers.get("content-type"),
+                    "text0": text0}
         if k == "path":
             r = self._req(path=case["path0"].encode("utf8", "surrogateescape"))
             q0 = [list(p) for p in r.query.fields]
@@ -429,11 +475,18 @@ class Check(PropertyCheck):
                 fails.append("query-writeback: path %r became %r" % (obs["path"], obs["path2"]))
         elif k == "form":
             if obs["back"] != case["pairs"]:
-                bare = bool(case["body0"]) and any("=" not in p for p in case["body0"].split("&"))
+                bare = bool(obs["text0"]) and any("=" not in p for p in obs["text0"].split("&"))
                 tag = "empty-pair-bare-style" if bare and ["", ""] in case["pairs"] and [p for p in case["pairs"] if p != ["", ""]] == obs["back"] else "other"
                 fails.append("form[%s]: %r reads back as %r (body %r)" % (tag, case["pairs"], obs["back"], unhx(obs["body_hex"])))
             if obs["back2"] != obs["back"]:
                 fails.append("form-writeback: view %r became %r" % (obs["back"], obs["back2"]))
+        elif k == "formwb":
+            # "writing a view's current value back leaves the message's meaning unchanged"
+            if obs["v1"] != obs["v0"]:
+                bare = bool(obs["text0"]) and any("=" not in p for p in obs["text0"].split("&"))
+                tag = "empty-pair-bare-style" if bare and ["", ""] in obs["v0"] and [p for p in obs["v0"] if p != ["", ""]] == obs["v1"] else "other"
+                fails.append("form-writeback[%s]: view %r of body %r under %r became %r (content-type now %r, body %r)" %
+                             (tag, obs["v0"], case["body0"], case["ct"], obs["v1"], obs["ct2"], unhx(obs["body_hex"])))
         elif k == "path":
             if all(c != "" for c in case["comps"]) and obs["back"] != case["comps"]:
                 fails.append("path: %r reads back as %r (path %r)" % (case["comps"], obs["back"], obs["path"]))
@@ -490,7 +543,7 @@ class Check(PropertyCheck):
             return None
         if failure.startswith("path-writeback[empty-segment]") or failure.startswith("wb-path_components[empty-segment]"): return "F-C34d"
         if failure.startswith("wb-query[asterisk]") or failure.startswith("wb-path_components[asterisk]"): return "F-C34g"
-        if failure.startswith("form[empty-pair-bare-style]"): return "F-C34e"
+        if failure.startswith("form[empty-pair-bare-style]") or failure.startswith("form-writeback[empty-pair-bare-style]"): return "F-C34e"
         if failure.startswith("multipart[boundary-escaped]") or failure.startswith("multipart-writeback[boundary-escaped]"): return "F-C34c"
         return None
 
@@ -571,6 +624,12 @@ class Check(PropertyCheck):
             if any(nck._has_special(v) for _, v in case["pairs"]): out.append("cookie:quoted-value")
         if k == "setcookie":
             out.append("representable" if all(sc_representable(*c) for c in case["cookies"]) else "not-representable")
+        if k in ("form", "formwb"):
+            ct = case["ct"] or ""
+            p_ = nh.parse_content_type(ct)
+            out.append("form-ct:" + ("none" if not ct else "not-form" if "x-www-form-urlencoded" not in ct.lower() else
+                                     "charset=" + str((p_[2].get("charset") if p_ else None) or "absent").lower()[:10]))
+            out.append("form-body:" + ("consistent" if case.get("benc") == form_charset(case["ct"]) else "inconsistent"))
         if k in ("wb", "query", "path"):
             p0 = case["path0"]
             for tag, cond in (("lead//", p0.startswith("//")), ("://", "://" in p0), (";params", ";" in p0.split("?")[0]), ("#", "#" in p0),
